@@ -21,6 +21,7 @@ import numpy as np
 from .. import ciphers
 from .. import disthist as dh
 from .. import tlc
+from ..core import scribble
 
 DTYPES = ['uint8', 'int16', 'int32', 'int64', 'uint16']
 
@@ -58,6 +59,7 @@ def cmp(chk, got, want, sig, ctx, text):
     if got.shape != want.shape or not np.array_equal(got.astype('int64'), want.astype('int64')):
         chk.violation(sig, dict(ctx, property='C05', got=got.tolist(), expected=want.tolist()), text)
         return False
+    scribble(got)         # the result is the caller's: whatever they write into it must not reach later results
     return True
 
 
@@ -145,6 +147,48 @@ def reused_buffers(chk, cases, beh):
         chk.traces_validated += 1
 
 
+def large_batches(chk, cases, beh, sizes):
+    """the batch forms are the row-wise map of the single-block cipher (the specification has no other notion of a batch): batches far larger than
+    any internal chunking, whose rows cycle through the TLC-evaluated behaviours - every row, the last ones included, must be its own FIPS state"""
+    import scared
+    for n in (16, 24, 32):
+        idx = [i for i, c in enumerate(cases) if len(c['key']) == n]
+        nr = n // 4 + 6
+        for N in sizes:
+            rows = [idx[(j * 7 + N) % len(idx)] for j in range(N)]
+            keys = np.array([cases[i]['key'] for i in idx], dtype='uint8')[[(j * 7 + N) % len(idx) for j in range(N)]]
+            blocks = np.array([cases[i]['block'] for i in idx], dtype='uint8')[[(j * 7 + N) % len(idx) for j in range(N)]]
+            r, s = (N + n) % (nr + 1), (N // 3) % 4
+            p = 4 * r + s
+            tab = {i: beh[i] for i in idx}
+            def want(field, pos):
+                t = np.array([tab[i][field][pos] for i in idx], dtype='uint8')
+                return t[[(j * 7 + N) % len(idx) for j in range(N)]]
+            cts = want('enc', -1)
+            for name, got, exp in (('encrypt:blocks paired with keys (large batch)', scared.aes.encrypt(blocks, keys), cts),
+                                   ('encrypt:blocks paired with keys (large batch, stop point)', scared.aes.encrypt(blocks, keys, at_round=r, after_step=s), want('enc', p)),
+                                   ('decrypt:blocks paired with keys (large batch)', scared.aes.decrypt(cts, keys), blocks),
+                                   ('decrypt:blocks paired with keys (large batch, stop point)', scared.aes.decrypt(cts, keys, at_round=r, after_step=s), want('dec', p))):
+                chk.count(('large', n, N, name), nontrivial=True)
+                got = np.asarray(got)
+                if got.shape != exp.shape or not np.array_equal(got, exp):
+                    badrow = int(np.nonzero(np.any(got != exp, axis=1))[0][-1]) if got.shape == exp.shape else -1
+                    chk.violation(name, {'property': 'C05', 'part': 'large', 'rows': N, 'key_bytes': n, 'row': badrow, 'key': keys[badrow].tolist(), 'block': blocks[badrow].tolist(),
+                                         'got': got[badrow].tolist() if badrow >= 0 else list(got.shape), 'expected': exp[badrow].tolist()},
+                                  f'{name}: row {badrow} of {N} is not the FIPS state (AES-{n * 8})')
+            # one key for all blocks of that key: rows restricted to the behaviours of one key
+            k0 = cases[idx[0]]['key']
+            same = [i for i in idx if cases[i]['key'] == k0]
+            sel = [same[(j * 5 + 1) % len(same)] for j in range(N)]
+            bl = np.array([cases[i]['block'] for i in sel], dtype='uint8')
+            exp = np.array([beh[i]['enc'][-1] for i in sel], dtype='uint8')
+            got = np.asarray(scared.aes.encrypt(bl, np.array(k0, dtype='uint8')))
+            chk.count(('large', n, N, 'one key'), nontrivial=True)
+            if got.shape != exp.shape or not np.array_equal(got, exp):
+                chk.violation('encrypt:many blocks with one key (large batch)', {'property': 'C05', 'part': 'large', 'rows': N, 'key': k0}, f'encrypt of {N} blocks with one key: some row is not the FIPS ciphertext')
+        chk.traces_validated += 1
+
+
 def single_ops(chk):
     import scared
     r = tlc.run('AESOps', cfg_text=tlc.cfg(invariants=['ArkInvolution', 'Emit']), workers=1, timeout=600)
@@ -225,6 +269,7 @@ def run(chk):
         all_stops(chk, cases, beh, ci, DTYPES[ci % len(DTYPES)])
     shapes(chk, cases, grid, beh, rng, nk, nb)
     reused_buffers(chk, cases, beh)
+    large_batches(chk, cases, beh, [2 ** 16 + 37] if q else [2 ** 16 - 3, 2 ** 16 + 37, 2 ** 17 + 1, 3 * 2 ** 16 + 5])
     from .. import apirules
     apirules.run(chk, 'aes_stop', 'C05')
     single_ops(chk)
